@@ -26,6 +26,8 @@ def is_concrete(v, depth=0):
     from .interp import Closure, BoundMethod, NativeMethod
     if isinstance(v, (Closure, BoundMethod, NativeMethod)):
         return False
+    if is_sym_array(v):
+        return False
     if depth < 4:
         if isinstance(v, (list, tuple, set, frozenset)):
             return all(is_concrete(x, depth + 1) for x in v)
@@ -34,6 +36,16 @@ def is_concrete(v, depth=0):
         if isinstance(v, slice):
             return all(is_concrete(x, depth + 1) for x in (v.start, v.stop, v.step))
     return True
+
+
+def is_sym_array(v):
+    """A real numpy object array that holds engine values (symbolic scalars): numpy is the container, run natively for
+    everything that does not look at the elements (shape, indexing with concrete indices / masks, copying, iteration)."""
+    if type(v).__module__ != 'numpy' or not hasattr(v, 'dtype') or not hasattr(v, 'flat'):
+        return False
+    if v.dtype != object:
+        return False
+    return any(isinstance(x, (Sym, SymSeq, Obj)) or type(x).__name__ in ('OpaqueVal', 'MatchVal') for x in v.flat)
 
 
 _NATIVE_DENY = set()
@@ -436,7 +448,27 @@ def _kind(v):
     return 'other'
 
 
+def _array_compare(interp, op, a, b):
+    """numpy's element-wise comparison of an object array holding symbolic values with a scalar (or an array of the
+    same shape): each element comparison is decided on the path (fork), the result is a concrete boolean array."""
+    import numpy as np
+    arr, other, swap = (a, b, False) if is_sym_array(a) else (b, a, True)
+    if isinstance(other, np.ndarray):
+        if other.shape != arr.shape:
+            raise Unsupported('comparison of arrays of different shapes')
+        others = list(other.flat)
+    else:
+        others = [other] * arr.size
+    out = np.empty(arr.size, bool)
+    for k, (x, y) in enumerate(zip(arr.flat, others)):
+        r = compare(interp, op, y, x) if swap else compare(interp, op, x, y)
+        out[k] = interp.truth(r)
+    return out.reshape(arr.shape)
+
+
 def compare(interp, op, a, b):
+    if op in ('==', '!=', '<', '<=', '>', '>=') and (is_sym_array(a) or is_sym_array(b)):
+        return _array_compare(interp, op, a, b)
     if op == 'is':
         return identical(interp, a, b)
     if op == 'is not':
@@ -521,6 +553,8 @@ def equal(interp, a, b):
         if is_concrete(a) and is_concrete(b):
             try:
                 r = a == b
+                if type(r).__module__ == 'numpy' and getattr(r, 'ndim', 0) > 0:
+                    return r           # numpy's element-wise comparison of concrete arrays
                 return bool(r)
             except Exception as ex:
                 raise Unsupported('== of %r, %r' % (a, b))
@@ -712,7 +746,43 @@ def getitem(interp, o, i):
         m = interp._class_lookup(o.cls, '__getitem__')
         if m is not None and interpretable(m):
             return interp.call(closure_of(m), [o, i], {})
+    if type(o).__module__ == 'numpy' and hasattr(o, 'shape'):
+        return ndarray_getitem(interp, o, i)
     raise Unsupported('subscript of %r' % (o,))
+
+
+def ndarray_getitem(interp, o, i):
+    """numpy indexing run natively; a symbolic integer index is decided on the path (one fork per position, negative
+    indices and IndexError as numpy has them).  None (np.newaxis) and slices pass through."""
+    idx = list(i) if isinstance(i, tuple) else [i]
+    if len([x for x in idx if x is not None]) > o.ndim and not any(isinstance(x, (SInt, SBool)) for x in idx):
+        interp.raise_(IndexError, 'too many indices for array')
+    conc, dim = [], 0
+    for x in idx:
+        if x is None:
+            conc.append(None)
+            continue
+        if isinstance(x, SBool):
+            raise Unsupported('boolean scalar index into an array')
+        if isinstance(x, SInt):
+            if dim >= o.ndim:
+                interp.raise_(IndexError, 'too many indices for array')
+            n = o.shape[dim]
+            for k in range(n):
+                if interp.ctx.branch(tm.mk_or(tm.mk_eq(x.t, tm.const(k)), tm.mk_eq(x.t, tm.const(k - n)))):
+                    conc.append(k)
+                    break
+            else:
+                interp.raise_(IndexError, 'index out of bounds')
+        elif is_concrete(x):
+            conc.append(x)
+        else:
+            raise Unsupported('array index %r' % (x,))
+        dim += 1
+    try:
+        return o[tuple(conc) if isinstance(i, tuple) else conc[0]]
+    except Exception as ex:
+        interp.raise_(type(ex), *ex.args)
 
 
 def str_getitem(interp, s, i):
@@ -860,6 +930,8 @@ def iterate(interp, v):
     if v is None or is_num(v):
         interp.raise_(TypeError, 'object is not iterable')
     if hasattr(v, '__iter__') and is_concrete(v):
+        return list(v)
+    if is_sym_array(v):
         return list(v)
     raise Unsupported('iteration over %r' % (v,))
 
@@ -1876,6 +1948,12 @@ def _register_numpy():
                 interp.raise_(type(ex), *ex.args)
         if dtype is object and isinstance(v, list) and all(isinstance(r, list) for r in v):
             return ArrVal([list(r) for r in v])
+        if dtype is object and (isinstance(v, (Sym, Obj)) or type(v).__name__ in ('OpaqueVal', 'MatchVal')):
+            out = np.empty((), object)          # a scalar becomes a 0-d object array holding it
+            out[()] = v
+            return out
+        if is_sym_array(v) and dtype in (None, object):
+            return v
         raise Unsupported('np.asarray of %r' % (v,))
     BUILTINS[np.asarray] = _asarray
 
